@@ -1120,6 +1120,15 @@ func (g *schemaGenerator) generateEnumType(t *schemas.Type, scope nameScope) (co
 					return nil, fmt.Errorf("%w %v", errEnumNonPrimitiveVal, v)
 				}
 			}
+		} else {
+			for _, v := range t.Enum {
+				switch v.(type) {
+				case nil, string, float64, bool:
+
+				default:
+					return nil, fmt.Errorf("%w %v", errEnumNonPrimitiveVal, v)
+				}
+			}
 		}
 
 		wrapInStruct = t.Type[0] == schemas.TypeNameNull // Null uses interface{}, which cannot have methods.
